@@ -120,6 +120,18 @@ def _singular_update(which):
     return make
 
 
+def _singular_other_width(which):
+    """l2_lambda = 0: a refit on a single all-zero feature column (another width than the data the bandit holds): singular
+    normal matrix for every arm -> rejected from inside training"""
+    def make(rs, cfg, sh):
+        n = int(rs.integers(3, 7))
+        b = _batch(rs, cfg, sh, n=n, nf=1)
+        d, r, X = np.asarray(b["d"]), np.asarray(b["r"], dtype=float), np.zeros((n, 1))
+        return "%s on one all-zero feature column (bandit holds %d features, l2_lambda=0)" % (which, sh.nf), \
+            (lambda m: getattr(m, which)(d, r, X))
+    return make
+
+
 def _ragged_contexts(which):
     def make(rs, cfg, sh):
         b = _batch(rs, cfg, sh, n=3)
@@ -210,6 +222,16 @@ def catalogue():
     cat.append(("fit:singular_l2_zero", "inside",
                 lambda cfg, sh: cfg["np"]["kind"] == "none" and cfg["lp"]["kind"] in ("lingreedy", "linucb") and sh.fitted
                 and sh.nf >= 2 and len(sh.arms) >= 2 and cfg["lp"].get("l2") == 0.0, _singular_update("fit")))
+    cat.append(("fit:singular_other_width", "inside",
+                lambda cfg, sh: cfg["np"]["kind"] == "none" and cfg["lp"]["kind"] in ("lingreedy", "linucb") and sh.fitted
+                and sh.nf >= 2 and cfg["lp"].get("l2") == 0.0, _singular_other_width("fit")))
+    is_ts = lambda cfg, sh: cfg["lp"]["kind"] == "ts"  # noqa: E731
+    cat += [
+        # a rejected add_arm that carries a perfectly valid binarizer (only the arm is at fault)
+        ("add_arm:duplicate_with_binarizer", "facade", is_ts, _add_arm(lambda rs, cfg, sh: gen.pick(rs, sh.arms), binarizers.inverted)),
+        ("add_arm:nan_with_binarizer", "facade", is_ts, _add_arm(lambda rs, cfg, sh: np.nan, binarizers.nonneg)),
+        ("add_arm:none_with_binarizer", "facade", is_ts, _add_arm(lambda rs, cfg, sh: None, binarizers.thr_outside)),
+    ]
     cat += [
         ("add_arm:duplicate", "facade", always, _add_arm(lambda rs, cfg, sh: gen.pick(rs, sh.arms))),
         ("add_arm:none", "facade", always, _add_arm(lambda rs, cfg, sh: None)),
